@@ -270,6 +270,8 @@ class Interp:
             else:
                 name = CMPOPS[e.op]
             l, r = self.promote(name if name != "NotEqual" else "Equal", [l, r])
+            if name == "Mod" and isinstance(l, np.ndarray) and l.dtype.kind == "f":
+                attrs["fmod"] = 1  # `%` on floating-point tensors is C fmod (ONNX defines no other Mod for them; Tensor.__mod__ does the same)
             if name == "NotEqual":
                 return self.op("Not", [self.op("Equal", [l, r], {})[0]], {})[0]
             return self.op(name, [l, r], attrs)[0]
@@ -538,7 +540,11 @@ class SGen:
             if op in ("/", "%"):
                 lit = self.literal_for(dt, nonzero=True)
                 if op == "%" and dt.kind == "f":
-                    lit = float(abs(lit)) or 2.0
+                    if isinstance(lit, int) and self.chance(3):
+                        self.feats.add("mod:float_tensor_nonfloat_literal")  # `X % 2` with a floating-point X
+                        lit = abs(lit)
+                    else:
+                        lit = float(abs(lit)) or 2.0
                 self.feats.add("literal:promoted")
                 return Bin(op, base, Lit(lit))
             lit = self.literal_for(dt)
@@ -549,6 +555,9 @@ class SGen:
         if kind == "binvar":
             other = Var(self.pick(same))
             op = self.pick(["+", "-", "*"])
+            if dt.kind == "f" and self.chance(1):
+                op = "%"  # `X % Y` on two floating-point tensors
+                self.feats.add("mod:float_tensor_tensor")
             return Bin(op, base, other)
         if kind == "call1":
             self.uses_op = True
@@ -1191,6 +1200,7 @@ def gen_helper(draw, idx, opset, dt=None, rank=None):
         cur = "q"
     p = Program(g.name, g.params, g.attrs, body, [Var(cur)], [(dt, rank)], opset, [], needs_default_opset=not _has_call(body))
     p.shape_preserving = True
+    p.feats = sorted(f for f in g.feats if f.startswith("mod:"))
     return p
 
 
@@ -1211,7 +1221,64 @@ class GenProgram:
 
 
 @st.composite
-def programs(draw, max_stmts=7, main_attrs=True, multicall_one_in=6):
+def operator_programs(draw):
+    """Operator matrix: one tensor parameter, 3-6 statements that each apply ONE Python operator to the parameter and a literal (on
+    either side), all results returned.  The grammar of `programs` reaches every (operator, literal kind, operand dtype, side) only
+    rarely; this strategy covers that product directly (literals with either sign, integer and floating-point tensors with values of
+    either sign)."""
+    g = SGen(draw, allow_helpers=False, allow_attrs=False, max_params=1)
+    dt = g.pick(["INT64", "INT64", "INT32", "FLOAT", "DOUBLE"])
+    g.force_first = (dt, g.pick([1, 1, 2, 0]))
+    g.make_params()
+    x = g.params[0][0]
+    sample = [g.env[x].copy()]
+    isf = DT[dt].kind == "f"
+    body, rets = [], []
+    for i in range(draw(st.integers(3, 6))):
+        op = g.pick(["+", "-", "*", "/", "%", "%", "**"] + list(CMPOPS))
+        if isf:
+            lit = g.pick([1, 2, 3, -2, 0.5, -1.5, 2.0, 1e-3, 0])
+        else:
+            lit = g.pick([1, 2, 3, 5, 7, -1, -2, -3, -5, 0])
+        left = g.chance(3)
+        if op == "**":
+            if not isf:
+                continue
+            e = Bin("**", Call("Abs", [Var(x)], {}), Lit(g.pick([2, 0.5, 1, 3])))
+            g.uses_op = True
+        elif op in ("/", "%"):
+            if lit == 0:
+                lit = 3
+            if op == "%" and isf:
+                if isinstance(lit, int):
+                    g.feats.add("mod:float_tensor_nonfloat_literal")
+                lit = abs(lit)
+            e = Bin(op, Var(x), Lit(lit))
+        else:
+            e = Bin(op, Lit(lit), Var(x)) if left else Bin(op, Var(x), Lit(lit))
+        v = g.try_eval(e)
+        if v is None or not isinstance(v, np.ndarray) or v.dtype not in NAME_OF:
+            continue
+        t = f"o{i}"
+        g.env[t] = v
+        body.append(Assign([t], e))
+        rets.append(t)
+    if not body:
+        g.uses_op = True
+        body = [Assign(["o"], Call("Identity", [Var(x)], {}))]
+        g.env["o"] = g.env[x]
+        rets = ["o"]
+    g.feats.update({"literal:promoted", "operator_matrix"})
+    ret_types = [(NAME_OF[g.env[n].dtype], g.env[n].ndim) for n in rets]
+    p = Program(g.name, g.params, g.attrs, body, [Var(n) for n in rets], ret_types, g.opset, [], needs_default_opset=not _has_call(body))
+    p.shape_preserving = False
+    return GenProgram(p, program_src(p), sample, {}, sorted(g.feats))
+
+
+@st.composite
+def programs(draw, max_stmts=7, main_attrs=True, multicall_one_in=6, operator_matrix_one_in=0):
+    if operator_matrix_one_in and draw(st.integers(0, operator_matrix_one_in - 1)) == 0:
+        return draw(operator_programs())
     g = SGen(draw, allow_attrs=main_attrs)
     multicall = draw(st.integers(0, multicall_one_in - 1)) == 0
     if multicall:
@@ -1253,6 +1320,8 @@ def programs(draw, max_stmts=7, main_attrs=True, multicall_one_in=6):
     feats = set(g.feats)
     if p.helpers:
         feats.add("subcall")
+        for h in p.helpers:
+            feats.update(getattr(h, "feats", ()))
     return GenProgram(p, program_src(p), sample, dict(g.attr_vals), sorted(feats))
 
 
